@@ -15,7 +15,15 @@ MODULES = {
         dict(name='sg_get_thickness', file=SG, cls='SurfaceGroup', func='get_thickness',
              types={'surface_number': 'int', 'self.positions': 'list'}),
         dict(name='wf_opd_image_to_xp', file=WF, cls='Wavefront', func='_opd_image_to_xp', row_inputs=ROWS),
+        # Wavefront._get_path_length(xc, yc, zc, r, wavelength): with a wavelength the image -> reference-sphere
+        # segment is weighted by |n| of the image-space medium (material.n(wavelength) is an input of the kernel);
+        # without (default None) by 1
         dict(name='wf_path_length', file=WF, cls='Wavefront', func='_get_path_length', row_inputs=ROWS,
+             static={'wavelength': 'notnone'}, types={'self.optic.image_surface.material_pre': 'obj'},
+             opaque_calls={'material.n': 'num'},
+             calls={'self._opd_image_to_xp': 'wf_opd_image_to_xp'}),
+        dict(name='wf_path_length_vac', file=WF, cls='Wavefront', func='_get_path_length', row_inputs=ROWS,
+             static={'wavelength': 'none'},
              calls={'self._opd_image_to_xp': 'wf_opd_image_to_xp'}),
     ],
 }
